@@ -17,11 +17,17 @@
     full   O_TMPFILE in the target directory → write* → linkat(/proc/self/fd/N, staged) →
            renameat2(staged, target, NOREPLACE) [→ rename(staged, target)] → close;
            if linkat fails: open(staged, O_CREAT|O_EXCL) → write* → close → rename | unlink.
-    zero   open(target, O_CREAT|O_EXCL) [→ open(target, O_CREAT|O_TRUNC)] → close
+    zero   open(target, O_CREAT|O_EXCL) → close; if the target exists: open(staged, O_CREAT|O_EXCL) →
+           close → rename (a new empty file replaces the target; never O_TRUNC in place).
     part   (Content-Range, webdav.opts partial-put-copy-modify) open(target, O_WRONLY) →
-           open(staged, O_CREAT|O_EXCL) → copy old content → write body at offset → rename → close.
-           A failed write must unlink the staged copy and must NOT rename it (repaired behaviour;
-           the pinned tree renames a partially patched copy over the target — see the C18 report).
+           open(staged, O_CREAT|O_EXCL) → copy old content → write body at offset → close → rename.
+           A failed write or a failed close must unlink the staged copy and must NOT rename it
+           (repaired behaviour: the code as found renamed first and reported a close() error
+           afterwards, i.e. an error status with the new content already in place).
+
+  Besides the acceptor there is the *generator* reading of the same automaton: `next` is the call
+  the code issues in a state, `genEv` pairs it with an arbitrary kernel answer (fault schedule,
+  write sizes, client abort), `runGen` runs the code-shaped model under a whole schedule.
   Core Lean only.
 -/
 import LtVerif.Model.Dav
@@ -64,6 +70,8 @@ inductive Sys where
   | openTrunc        -- open(target, O_CREAT|O_TRUNC)       (zero-length PUT)
   | openOld          -- open(target, O_WRONLY)              (partial PUT)
   | copyOld          -- copy of old content into the staged copy
+  | mkostemp         -- mkostemp(target-XXXXXX) (O_TMPFILE not available)
+  | unlinkNamed      -- unlink(target-XXXXXX) right after mkostemp
   | seekFail         -- lseek() on the staged copy failed
   | other            -- any other modifying call on the target or staged name
 deriving DecidableEq, Repr
@@ -76,7 +84,8 @@ deriving DecidableEq, Repr
 
 inductive Pc where
   | start
-  | start2          -- O_TMPFILE refused: mkostemp() + unlink() in the target directory
+  | start2          -- O_TMPFILE refused: mkostemp() in the target directory
+  | start3          -- mkostemp()ed file exists under its name; unlink() next
   | recv            -- O_TMPFILE open, receiving
   | linked          -- staged name exists, complete
   | needRename
@@ -92,7 +101,7 @@ inductive Pc where
   | pExcl           -- partial: target opened, stage a copy
   | pCopy
   | pPatch (j : Nat)
-  | pClose          -- renamed into place: close the descriptor
+  | pRen            -- patched completely and closed without error: rename next
   | pFail (needClose needUnlink : Bool)   -- failed: close the descriptor and unlink the staged copy (any order)
   | done
 deriving DecidableEq, Repr
@@ -121,8 +130,10 @@ def stepEv (c : Cfg) (s : PSt) (ev : Ev) : Option PSt :=
     if c.kind == .full then
       if ev.ok then some { s with pc := .recv, anon := some [] } else some { s with pc := .start2 }
     else none
-  | .start2, .openTmpfile =>
-    if ev.ok then some { s with pc := .recv, anon := some [] } else some { s with pc := .done, status := 4 }
+  | .start2, .mkostemp =>
+    if ev.ok then (if s.tmp.isNone then some { s with pc := .start3, tmp := some [], anon := some [] } else none)
+    else some { s with pc := .done, status := 4 }
+  | .start3, .unlinkNamed => some { s with pc := .recv, tmp := none }
   | .start, .openExcl =>
     if c.kind == .zero then
       if ev.ok then
@@ -187,10 +198,7 @@ def stepEv (c : Cfg) (s : PSt) (ev : Ev) : Option PSt :=
     else some { s with pc := .cleanup, status := 4 }
   | .byNameF, .closeTmp => some { s with pc := .cleanup }
   -- ---------------------------------------------------------------- zero-length PUT
-  | .zTrunc, .openTrunc =>
-    if ev.ok then some { s with pc := .closing, target := some [], status := 2 }
-    else some { s with pc := .done, status := 4 }
-  | .zTrunc, .openTmpExcl =>          -- (repaired tree: replace by a new empty file instead of O_TRUNC)
+  | .zTrunc, .openTmpExcl =>          -- replace by a new empty file (never O_TRUNC in place)
     if ev.ok then (if s.tmp.isNone then some { s with pc := .zStaged, tmp := some [] } else none)
     else some { s with pc := .done, status := 4 }
   | .zStaged, .closeTmp => some { s with pc := .zRen }
@@ -224,13 +232,14 @@ def stepEv (c : Cfg) (s : PSt) (ev : Ev) : Option PSt :=
       else some { s with pc := .pFail true true, status := 4 }
     | _, _ => none
   | .pPatch _, .seekFail => some { s with pc := .pFail true true, status := 4 }
-  | .pPatch j, .rename =>
-    -- (the code renames before closing the descriptor)
+  | .pPatch j, .closeTmp =>
+    -- close() reports deferred write errors: it comes before the rename and its result counts
     if j == c.body.length then
-      if ev.ok then some { s with pc := .pClose, target := s.tmp, tmp := none, status := 2 }
-      else some { s with pc := .pFail true true, status := 4 }
+      if ev.ok then some { s with pc := .pRen } else some { s with pc := .pFail false true, status := 4 }
     else none
-  | .pClose, .closeTmp => some { s with pc := .done }
+  | .pRen, .rename =>
+    if ev.ok then some { s with pc := .done, target := s.tmp, tmp := none, status := 2 }
+    else some { s with pc := .pFail false true, status := 4 }
   | .pFail true u, .closeTmp => some { s with pc := if u then .pFail false true else .done }
   | .pFail cl true, .unlinkTmp => some { s with pc := if cl then .pFail true false else .done, tmp := none }
   | _, _ => none
@@ -251,6 +260,90 @@ def firstReject (c : Cfg) : PSt → List Ev → Nat → Option Nat
     | none => some i
     | some s' => firstReject c s' es (i + 1)
 
+/-! ### the generator reading: the code issues `next`, the kernel / client answer is a schedule -/
+
+/-- the system call the code issues next in state `s` (`none`: the request is finished) -/
+def next (c : Cfg) (s : PSt) : Option Sys :=
+  match s.pc with
+  | .start => some (match c.kind with | .full => .openTmpfile | .zero => .openExcl | .part _ => .openOld)
+  | .start2 => some .mkostemp
+  | .start3 => some .unlinkNamed
+  | .recv => if (s.anon.getD []).length < c.body.length then some .write else some .link
+  | .linked => some .renameNr
+  | .needRename => some .rename
+  | .cleanup => some .unlinkTmp
+  | .closing => some .close
+  | .byName => some .openTmpExcl
+  | .byNameW => if (s.tmp.getD []).length < c.body.length then some .write else some .closeTmp
+  | .byNameC => some .rename
+  | .byNameF => some .closeTmp
+  | .zTrunc => some .openTmpExcl
+  | .zStaged => some .closeTmp
+  | .zRen => some .rename
+  | .pExcl => some .openTmpExcl
+  | .pCopy => some .copyOld
+  | .pPatch j => if j < c.body.length then some .write else some .closeTmp
+  | .pRen => some .rename
+  | .pFail true _ => some .closeTmp
+  | .pFail false true => some .unlinkTmp
+  | .pFail false false => none
+  | .done => none
+
+/-- one answer of the environment: does the call succeed, how many bytes does a write / copy
+    transfer, does the client abort (meaningful while the body is being received) -/
+structure Res where
+  ok : Bool := true
+  n : Nat := 1
+  abort : Bool := false
+deriving Repr
+
+/-- bytes still to be transferred by the next write / copy -/
+def remaining (c : Cfg) (s : PSt) : Nat :=
+  match s.pc with
+  | .recv => c.body.length - (s.anon.getD []).length
+  | .byNameW => c.body.length - (s.tmp.getD []).length
+  | .pCopy => (c.old.getD []).length - (s.tmp.getD []).length
+  | .pPatch j => c.body.length - j
+  | _ => 0
+
+/-- the event of this step.  A successful write transfers between 1 and `remaining` bytes; the
+    kernel cannot create (O_EXCL, RENAME_NOREPLACE) over an existing target nor open a missing one. -/
+def genEv (c : Cfg) (s : PSt) (r : Res) : Option Ev :=
+  match next c s with
+  | none => none
+  | some sys =>
+    if s.pc == .recv && r.abort then some { sys := .close, ok := true, n := 0 }
+    else
+      let ok := match sys with
+        | .openExcl => r.ok && s.target.isNone
+        | .renameNr => r.ok && s.target.isNone
+        | .openOld => r.ok && s.target.isSome
+        | _ => r.ok
+      some { sys := sys, ok := ok, n := min (max r.n 1) (remaining c s) }
+
+/-- run the code-shaped model under a schedule; `none` = an issued call was not accepted -/
+def runGen (c : Cfg) (res : Nat → Res) : Nat → Nat → PSt → Option PSt
+  | 0, _, s => some s
+  | fuel + 1, k, s =>
+    match genEv c s (res k) with
+    | none => some s
+    | some ev =>
+      match stepEv c s ev with
+      | none => none
+      | some s' => runGen c res fuel (k + 1) s'
+
+/-- progress measure: position in the protocol, then bytes still to transfer -/
+def stage : Pc → Nat
+  | .start => 20 | .start2 => 19 | .start3 => 18 | .recv => 17 | .linked => 16 | .needRename => 15
+  | .byName => 16 | .byNameW => 15 | .byNameC => 14 | .byNameF => 14 | .cleanup => 13 | .closing => 12
+  | .zTrunc => 19 | .zStaged => 18 | .zRen => 17 | .pExcl => 19 | .pCopy => 18 | .pPatch _ => 17 | .pRen => 16
+  | .pFail true true => 11 | .pFail true false => 10 | .pFail false true => 10 | .pFail false false => 0
+  | .done => 0
+
+def span (c : Cfg) : Nat := c.body.length + (c.old.getD []).length + 1
+
+def rank (c : Cfg) (s : PSt) : Nat := stage s.pc * span c + remaining c s
+
 /-- what a reader (GET, or the file system after a crash) sees at the target name -/
 def PSt.read (s : PSt) : Option Bytes := s.target
 
@@ -261,7 +354,8 @@ def parseSys : String → Option Sys
   | "renameNr" => some .renameNr | "rename" => some .rename | "unlinkTmp" => some .unlinkTmp
   | "close" => some .close | "openTmpExcl" => some .openTmpExcl | "closeTmp" => some .closeTmp
   | "openExcl" => some .openExcl | "openTrunc" => some .openTrunc | "openOld" => some .openOld
-  | "copyOld" => some .copyOld | "seekFail" => some .seekFail | "other" => some .other | _ => none
+  | "copyOld" => some .copyOld | "seekFail" => some .seekFail | "other" => some .other
+  | "mkostemp" => some .mkostemp | "unlinkNamed" => some .unlinkNamed | _ => none
 
 def parseEv (s : String) : Option Ev :=
   let (name, n) := match s.splitOn ":" with
@@ -272,11 +366,11 @@ def parseEv (s : String) : Option Ev :=
   (parseSys name).map fun sy => { sys := sy, ok := !failed, n := n }
 
 def showPc : Pc → String
-  | .done => "done" | .start => "start" | .start2 => "start2" | .recv => "recv" | .linked => "linked"
+  | .done => "done" | .start => "start" | .start2 => "start2" | .start3 => "start3" | .recv => "recv" | .linked => "linked"
   | .needRename => "needRename" | .cleanup => "cleanup" | .closing => "closing"
   | .byName => "byName" | .byNameW => "byNameW" | .byNameC => "byNameC" | .byNameF => "byNameF"
   | .zTrunc => "zTrunc" | .zStaged => "zStaged" | .zRen => "zRen" | .pExcl => "pExcl" | .pCopy => "pCopy" | .pPatch _ => "pPatch"
-  | .pClose => "pClose" | .pFail _ _ => "pFail"
+  | .pRen => "pRen" | .pFail _ _ => "pFail"
 
 def showOpt (o : Option Bytes) : String :=
   match o with
